@@ -129,7 +129,7 @@ class Scenario:
                 c = sc.cfgs.get(jid)
                 n = job.attempts if job is not None else 0
                 if c and n < len(c["outs"]) and c["outs"][n]:
-                    raise core.FAILURES[(jid + n) % len(core.FAILURES)]("scripted failure")
+                    raise core.failure_class(jid + n)("scripted failure")
                 raised = False
             finally:
                 if dst.CTL:
@@ -194,7 +194,9 @@ class Scenario:
                 res = ("none",) if (m and int(m.group(1)) == rows) else ("err", "Other:TornPrint")
             else:
                 raise ValueError(o)
-        except Exception as e:  # noqa
+        except (KeyboardInterrupt, SystemExit, GeneratorExit):
+            raise
+        except BaseException as e:  # noqa
             res = ("err", core.exc_name(e))
             if ctl:
                 ctl.emit("op-end", (o, res))
